@@ -979,8 +979,7 @@ def check_ctor_shape(an, res, prop, cm, roles):
     probs = []
 
     def sized(field):
-        v = inits.get(THIS(field))
-        return isinstance(v, tuple) and v[0] == 'ctor' and len(v[2]) >= 1 and v[2][0] == ('p', 'capacity')
+        return ops.ctor_sizes_field(an.paths(cm, ctor), THIS(field))
 
     for role in ('slots', 'order', 'perm'):
         f = getattr(roles, role, None)
@@ -1235,6 +1234,22 @@ def check_free_slot(res, prop, cm, roles, m, seg):
             why = 'slot at the partition is free'
         if ent.kind == 'FROMEND' and roles.name == 'fifo_cache':
             ok = True
+        if ent.kind == 'PERMAT' and not ok and roles.part is not None:
+            # rr: the open list holds the bound slots at positions [0, m_open_list_end) (RI): a position the path has tested to be
+            # below the partition index names a bound slot
+            from model import THIS as _THIS
+            for c in seg.conds:
+                raw, truth = c[4], c[5]
+                if not (isinstance(raw, tuple) and raw and raw[0] == 'cmp'):
+                    continue
+                op, a, b = raw[1], raw[2], raw[3]
+                if not truth:
+                    op = {'<': '>=', '>=': '<', '>': '<=', '<=': '>'}.get(op)
+                if op == '>':
+                    op, a, b = '<', b, a
+                if op == '<' and a == ent.arg and is_ld(b) and b[2] == _THIS(roles.part):
+                    ok = True
+                    break
         res.ob('R-FREE-SLOT', ok=ok)
         if not ok:
             key = (ent.key(), f)
